@@ -4,6 +4,7 @@ From Coq Require Import Sorting.Permutation.
 From KT Require Import Gen.Alphabet Model.Kmer Proof.KmerProof Proof.Regs Proof.RevComp Proof.Strand Proof.RowsProof.
 Import ListNotations.
 Open Scope N_scope.
+From KT Require Gen.Generated Gen.FactRevMasks.
 
 Theorem C02_rev_comp_involutive :
   forall k x, (k <= 31)%nat -> x < 4 ^ N.of_nat k -> rev_comp k (rev_comp k x) = x.
@@ -42,6 +43,11 @@ Proof. intros k s. exact (canon_multiset_rc digit_of_letter comp_byte comp_clean
 Example C02_example : rev_comp 6 875 = 355.   (* ATCGGT -> ACCGAT, the repository's own test *)
 Proof. vm_compute. reflexivity. Qed.
 
+(* the mask with which the three iterators complement a base, as found in the sources, is the one the model uses (3) *)
+Theorem C02_complement_mask_in_the_code :
+  Generated.rev_mask_kmer = 3 /\ Generated.rev_mask_minimiser = 3 /\ Generated.rev_mask_kmer_minimisers = 3.
+Proof. exact FactRevMasks.rev_masks_ok. Qed.
+
 Print Assumptions C02_rev_comp_involutive.
 Print Assumptions C02_rev_comp_text.
 Print Assumptions C02_decode_encode.
@@ -49,3 +55,4 @@ Print Assumptions C02_encode_decode.
 Print Assumptions C02_second_component_is_reverse_complement.
 Print Assumptions C02_stream_of_reverse_complement.
 Print Assumptions C02_canonical_multiset_is_strand_symmetric.
+Print Assumptions C02_complement_mask_in_the_code.
